@@ -57,6 +57,12 @@ var pureByContract = map[string]string{
 	"(*crypto/sha3.SHAKE).AppendBinary":  "as MarshalBinary",
 }
 
+// assembly routines (no Go body): parameters that are only read, per their
+// documented signature; every other pointer/slice parameter counts as written.
+var readOnlyParams = map[string]map[int]bool{
+	"internal/poly1305.update": {1: true}, // update(state *macState, msg []byte): msg is the message, state is written
+}
+
 func hasRefs(t types.Type, depth int) bool {
 	if depth > 6 {
 		return true
@@ -308,9 +314,13 @@ func (p *purity) analyse(fn *ssa.Function, idx int, depth int) (string, ssa.Inst
 			if _, trusted := pureByContract[short(callee.String())]; trusted {
 				return
 			}
+			ro := readOnlyParams[short(callee.String())]
 			for i, a := range cc.Args {
 				if !D[a] {
 					continue
+				}
+				if ro != nil && ro[i] {
+					continue // assembly routine: this parameter is only read (table above)
 				}
 				// free variables of closures are not parameters
 				if ok, w, _ := p.paramPure(callee, i, depth+1); !ok {
